@@ -474,21 +474,36 @@ def check_pad_basic(ctx, P, rule_id):
             pads = [e for e in o.value.eff if e[0] == "pad"]
             if o.value.name != "da":
                 bad = "does not pad the array it was given"
-            if len(pads) != 2:
-                bad = f"{len(pads)} pad() calls for 2 axes"
-                continue
-            for a, p in zip(("AX", "AY"), pads):
+            # what each dimension receives, whichever way the calls are grouped
+            per_dim = {}
+            for p in pads:
                 args, kw = list(p[1]), dict(p[2])
                 m = args[0] if args else kw.get("pad_width")
                 md = args[1] if len(args) > 1 else kw.get("mode")
-                if m != {dimsym(a, "center"): (Lin.sym(f"lo_{a}"), Lin.sym(f"hi_{a}"))}:
-                    bad = f"axis {a}: xarray.pad receives {m!r} instead of {{its dimension: (lower, upper)}} unchanged"
+                cv = kw.get("constant_values", "<none>")
+                if not isinstance(m, dict):
+                    bad = f"xarray.pad called without a {{dimension: widths}} mapping ({m!r})"
+                    continue
+                for d, wd in m.items():
+                    if d in per_dim:
+                        bad = f"dimension {d!r} is padded twice"
+                    per_dim[d] = (wd, md, cv.get(d, "<none>") if isinstance(cv, dict) else cv)
+            for a in ("AX", "AY"):
+                d = dimsym(a, "center")
+                if d not in per_dim:
+                    bad = bad or f"axis {a}: its dimension is not padded"
+                    continue
+                wd, md, cv = per_dim[d]
+                if tuple(wd) != (Lin.sym(f"lo_{a}"), Lin.sym(f"hi_{a}")):
+                    bad = bad or f"axis {a}: xarray.pad receives widths {wd!r} instead of the requested (lower, upper) unchanged"
                 elif md != mode:
-                    bad = f"rule '{rule}' is translated to pad mode {md!r} instead of '{mode}'"
-                elif mode == "constant" and kw.get("constant_values") != Sym(f"FILL_{a}"):
-                    bad = f"axis {a}: constant_values={kw.get('constant_values')!r} instead of the fill value in force for that axis"
-                elif mode != "constant" and "constant_values" in kw:
-                    bad = f"constant_values passed with mode {mode}"
+                    bad = bad or f"rule '{rule}' is translated to pad mode {md!r} instead of '{mode}'"
+                elif mode == "constant" and cv != Sym(f"FILL_{a}"):
+                    bad = bad or f"axis {a}: padded with constant_values={cv!r} instead of the fill value in force for that axis"
+                elif mode != "constant" and cv != "<none>":
+                    bad = bad or f"constant_values passed with mode {mode}"
+            if set(per_dim) - {dimsym("AX", "center"), dimsym("AY", "center")}:
+                bad = bad or f"dimensions {set(per_dim)} are padded; only the requested axes' dimensions may be"
         if bad:
             ctx.report(rule_id, fi, inst, bad)
         else:
